@@ -228,13 +228,14 @@ def main():
         print(open(o["log"]).read())
         ok = o["data"].get("replay_ok")
         if ok:
-            print("VIOLATION property=%s replay=%s" % (args.prop, os.path.abspath(args.replay)))
+            print("VIOLATION property=%s replay=%s" % (cfg.get("report_as", args.prop), os.path.abspath(args.replay)))
             print("  class: %s\n  detail: %s" % (o["data"].get("replay_class"), o["data"].get("replay_detail")))
             sys.exit(1)
         print("replay did not reproduce the recorded violation (class now: %r)" % o["data"].get("replay_class"))
         sys.exit(0)
 
-    known = load_known(args.prop)
+    report = cfg.get("report_as", args.prop)  # a second part of another property's check
+    known = load_known(report)
     budget = cfg["budget"][tier]
     nworkers = args.workers or budget.get("workers", 16)
     seconds = args.seconds if args.seconds is not None else budget.get("seconds", 30)
@@ -299,7 +300,10 @@ def main():
             except Exception:  # noqa: BLE001
                 pass
             print("worker died rc=%s log=%s\n%s" % (o["rc"], o["log"], tail))
-        infra("%d worker(s) died without a result (see logs above)" % len(crashed))
+        if not violations:
+            infra("%d worker(s) died without a result (see logs above)" % len(crashed))
+        # other workers recorded violations: those are replay-verified below in fresh processes and reported
+        print("note: %d worker(s) died without a result; reporting the violations recorded by the others" % len(crashed))
 
     wall = time.time() - t_start
     exit_code = 0
@@ -320,7 +324,7 @@ def main():
                 v["class"], v["seed"], (o["data"] or {}).get("replay_detail")))
             print("  original detail: %s" % v["detail"])
             infra("non-replaying violation; replay file kept at %s" % path)
-        vio_lines.append("VIOLATION property=%s replay=%s" % (args.prop, path))
+        vio_lines.append("VIOLATION property=%s replay=%s" % (report, path))
         vio_lines.append("  class: %s" % v["class"])
         vio_lines.append("  detail: %s" % v["detail"][:2000])
         vio_lines.append("  minimised tape: %d of %d entries" % (len(v["tape"]), v.get("original_tape_len", 0)))
@@ -331,7 +335,7 @@ def main():
         n = agg["known"].get(k["id"], 0)
         if n > 0:
             known_lines.append("KNOWN-FINDING: property=%s %s (%s; seen in %d run(s); e.g. %s)" % (
-                args.prop, k["id"], k.get("description", ""), n, agg["known_samples"].get(k["id"], "")))
+                report, k["id"], k.get("description", ""), n, agg["known_samples"].get(k["id"], "")))
 
     if agg["runs"] == 0:
         infra("no valid runs (discarded=%d reasons=%s)" % (agg["discarded"], agg["discard_reasons"]))
@@ -375,7 +379,10 @@ def main():
             "violations": len(seen_classes),
         }
         os.makedirs(os.path.join(VERIF, "evidence"), exist_ok=True)
-        with open(os.path.join(VERIF, "evidence", args.prop + ".json"), "w") as f:
+        evpath = os.path.join(VERIF, "evidence", args.prop + ".json")
+        if report != args.prop:
+            evpath = os.path.join(work, "evidence_part.json")  # merged into the main part's evidence by its driver
+        with open(evpath, "w") as f:
             json.dump(ev, f, indent=1)
 
     print("%s tier=%s seed=%d runs=%d discarded=%d distinct=%d nontrivial=%d steps=%d sim=%.0fs wall=%.1fs faults=%s" % (
